@@ -126,6 +126,14 @@ def main():
             out.violation('native:' + what.replace(' ', '-'), f'{what}: generation succeeds for `{q}`', dict(kind='native', schema=base, query=q))
         elif r['status'] in ('crash', 'timeout'):
             out.violation('native-crash:' + what.replace(' ', '-'), f'{what}: generator {r["status"]}', dict(kind='native', schema=base, query=q))
+    # an explicit schema block that omits a root means the schema has no such root, whatever the type names suggest
+    norootm = base + 'type Mutation { x: Int }\ntype Subscription { x: Int }\n'
+    for what, q in (('mutation although the schema block declares no mutation root', 'mutation M { x }'), ('subscription although the schema block declares no subscription root', 'subscription S { x }')):
+        r = rt.gen(norootm, q + '\n', {})
+        replayed += 1
+        native_facts.append(dict(edit=what, status=r['status']))
+        if r['status'] == 'ok':
+            out.violation('native:root-omitted-by-schema-block', f'{what}: generation succeeds for `{q}` against `schema {{ query: Query }}` + `type Mutation` / `type Subscription`', dict(kind='native', schema=norootm, query=q))
     sub = base.replace('schema { query: Query }', 'schema { query: Query subscription: Query }')
     r = rt.gen(sub, 'subscription S { o0 { x } o1 { x } }\n', {})
     replayed += 1
